@@ -13,6 +13,9 @@ from vlib.vtargets import mark, Val, CustomError
 def decode(v):
     if isinstance(v, dict) and '__val__' in v:
         return Val(*v['__val__'])
+    if isinstance(v, dict) and '__slowbox__' in v:
+        from vlib.vtargets import SlowBox
+        return SlowBox(v['__slowbox__'], 0.8)
     if isinstance(v, dict) and '__onlyhere__' in v:
         from vlib.vtargets import OnlyHere
         return OnlyHere()
